@@ -9,6 +9,9 @@ from ..core import same, HarnessError, snap, snap_same
 ID = 'C16'
 TITLE = 'ulist / dictattr / Dict algebra; Dict.__call__ dependency order'
 LEVEL = 'exploration'
+TECHNIQUE = 'runtime monitoring: ordered-set and mapping reference models + icontract uniqueness invariant on ulist + call recorder for Dict.__call__ over every keyword order'
+LEVEL_TEXT = 'Held on the lists/mappings explored and on every keyword order (<=720) of each generated dependency graph. A check says held on K observed executions, never verified.'
+LEVEL_NOTE = 'Trusted: Python == for set elements; right operand of + is dict/dictattr/Dict.'
 RULE = ('ulist: random lists of hashable elements x operators (+ | - &) x (element | list); dictattr/Dict/subclasses: random string-key mappings x key selections '
         '(present/absent/mixed) x (-, &, [list], [k1,k2], +, |, relabel, attribute access); Dict.__call__: random dependency graphs over <=6 derived keys '
         '(acyclic and cyclic, some redefining existing keys), EVERY keyword order of each graph (<=720); non-trivial = ulist operand with a duplicate or an '
